@@ -207,6 +207,7 @@ func newConcreteManifest(f *fs.Filesystem, apiClient *lfsapi.Client, operation, 
 		downloadAdapterFuncs: make(map[string]NewAdapterFunc),
 		uploadAdapterFuncs:   make(map[string]NewAdapterFunc),
 		sshTransfer:          sshTransfer,
+		maxRetryDelay:        -1,
 	}
 
 	var tusAllowed bool
@@ -231,7 +232,7 @@ func newConcreteManifest(f *fs.Filesystem, apiClient *lfsapi.Client, operation, 
 	if m.maxRetries < 1 {
 		m.maxRetries = defaultMaxRetries
 	}
-	if m.maxRetryDelay < 1 {
+	if m.maxRetryDelay < 0 {
 		m.maxRetryDelay = defaultMaxRetryDelay
 	}
 
